@@ -67,7 +67,7 @@ class RefCheck:
                 if "program" in w and "expected_stdout" in w:
                     o = common.run_programs(self.exe, [w["program"]], timeout=10)[0]
                     self.evals += 1
-                    if o[0] != w["expected_stdout"] or o[1] != "ok":
+                    if o[0] != w["expected_stdout"] or o[1] != w.get("expected_class", "ok"):
                         self.v.known_finding(f["what"])
                         self.reported_ids.add(f["id"])
                 continue
